@@ -643,3 +643,23 @@ def _c17_twins():
 
 
 _c17_twins()
+
+
+# --- the thorough tier explores at least what the quick tier explores: any (configuration, stream) that
+# only the quick list names is added to the thorough list (same budget for the fixed-cost streams, four
+# times the budget otherwise)
+_FIXED_COST = {"hugepiece", "hugestream", "huge", "kat", "lie", "race", "file", "len-sweep", "limits", "tables", "hdr", "mini"}
+
+
+def _thorough_superset():
+    for pid, spec in PROPS.items():
+        th = spec["streams"]["thorough"]
+        have = {(s[0], s[1]) for s in th}
+        for s in spec["streams"]["quick"]:
+            if (s[0], s[1]) not in have:
+                b = s[2] if s[1] in _FIXED_COST or s[1] == "parse-sweep" else s[2] * 4
+                th.append((s[0], s[1], b) + tuple(s[3:]))
+                have.add((s[0], s[1]))
+
+
+_thorough_superset()
